@@ -139,6 +139,8 @@ func wire(lis *bufconn.Listener, req *http.Request) (string, bool) {
 		return "", false
 	}
 	defer conn.Close()
+	// (a pending deadline timer keeps the connection's buffers alive until it fires: clear it when done)
+	defer conn.SetDeadline(time.Time{})
 	conn.SetDeadline(time.Now().Add(30 * time.Second))
 	var body []byte
 	if req.Body != nil {
@@ -254,7 +256,7 @@ func Check(c Case) ([]evid.Violation, info) {
 		if err != nil {
 			return []evid.Violation{evid.V("new-server", "", "second NewServer(%v, extras %v): %v", c.Patterns, c.Extras, err)}, in
 		}
-		wsSrv, wsMux = bufconn.Listen(1<<20), bufconn.Listen(1<<20)
+		wsSrv, wsMux = bufconn.Listen(64<<10), bufconn.Listen(64<<10)
 		for lis, h := range map[*bufconn.Listener]http.Handler{wsSrv: srv2.Handler, wsMux: b2.Mux} {
 			hs := &http.Server{Handler: h}
 			go hs.Serve(lis)
